@@ -217,4 +217,4 @@ def run(ctx):
                 ev.count(k)
         return f
 
-    ctx.campaign("main", wrapped_cases(cfg), oracle, max_examples=ctx.n(300, 48000))
+    ctx.campaign("main", wrapped_cases(cfg), oracle, max_examples=ctx.n(700, 48000))
